@@ -205,28 +205,38 @@ def node_checks(parent, n, dates=True):
     return out, calls
 
 def chain_job(job):
-    """DFS below one first-level variant -> (nodes, chains, calls, violations[(key, rec, msg)])"""
-    kls, depth, vset, first = job
+    """one node given by its path from the root (the last element of `prefix`) and, if `below`, the whole subtree under it
+    -> (nodes, chains, calls, violations[(key, rec, msg)])"""
+    kls, depth, vset, prefix, below = job
     variants = VARSETS[vset]
     viol = []
     stats = [0, 0, 0]
     root = make_root(kls[0])
-    r = run_fn('btok.CVCUnwrap', dict(cert=root.cert, mode='self'))
-    if r['ret'] or r['cvc'] != root.cvc:
-        viol.append(('chain:root', {'cfg': CFG, 'kind': 'chain', 'kls': list(kls), 'path': []}, 'self-signed root does not parse back: %#x' % r['ret']))
-    def rec(parent, level, path, chain_ok):
-        for v in (variants if level > 1 else [first]):
-            n = make_node(parent, level, kls[level], v)
-            p2 = path + [list(v)]
-            msgs, calls = node_checks(parent, n, dates=True)
-            stats[0] += 1; stats[1] += 1; stats[2] += calls + 1
-            for what, m in msgs:
-                viol.append(('chain:%s:%s' % (what, 'accepts' if 'must be refused' in m else 'other' if ':' in what else 'refuses'),
-                             {'cfg': CFG, 'kind': 'chain', 'kls': list(kls), 'path': p2, 'what': what},
-                             'chain keys %s, links %s: %s' % (list(kls[:level + 1]), p2, m)))
+    if len(prefix) == 1:
+        r = run_fn('btok.CVCUnwrap', dict(cert=root.cert, mode='self'))
+        if r['ret'] or r['cvc'] != root.cvc:
+            viol.append(('chain:root', {'cfg': CFG, 'kind': 'chain', 'kls': list(kls), 'path': []}, 'self-signed root does not parse back: %#x' % r['ret']))
+    def visit(parent, level, v, path):
+        n = make_node(parent, level, kls[level], v)
+        p2 = path + [list(v)]
+        msgs, calls = node_checks(parent, n, dates=True)
+        stats[0] += 1; stats[1] += 1; stats[2] += calls + 1
+        for what, m in msgs:
+            viol.append(('chain:%s:%s' % (what, 'accepts' if 'must be refused' in m else 'other' if ':' in what else 'refuses'),
+                         {'cfg': CFG, 'kind': 'chain', 'kls': list(kls), 'path': p2, 'what': what},
+                         'chain keys %s, links %s: %s' % (list(kls[:level + 1]), p2, m)))
+        return n, p2
+    def rec(parent, level, path):
+        for v in variants:
+            n, p2 = visit(parent, level, v, path)
             if level < depth:
-                rec(n, level + 1, p2, chain_ok and n.link_ok)
-    rec(root, 1, [], True)
+                rec(n, level + 1, p2)
+    parent, path = root, []
+    for level, v in enumerate(prefix[:-1], 1):
+        parent = make_node(parent, level, kls[level], tuple(v)); path = path + [list(v)]
+    n, p2 = visit(parent, len(prefix), tuple(prefix[-1]), path)
+    if below and len(prefix) < depth:
+        rec(n, len(prefix) + 1, p2)
     return stats[0], stats[1], stats[2], viol[:20]
 
 def chain_jobs(tier):
@@ -239,7 +249,12 @@ def chain_jobs(tier):
         plans += [((a, b), 1, 'full') for a in cat_tok.KLENS for b in cat_tok.KLENS]
     for kls, depth, vset in plans:
         for first in VARSETS[vset]:
-            jobs.append((kls, depth, vset, first))
+            if depth >= 3:          # split below the second level: evenly sized jobs
+                jobs.append((kls, depth, vset, (first,), False))
+                for second in VARSETS[vset]:
+                    jobs.append((kls, depth, vset, (first, second), True))
+            else:
+                jobs.append((kls, depth, vset, (first,), True))
     return jobs
 
 def chains(chk, tier):
@@ -248,7 +263,7 @@ def chains(chk, tier):
     nodes = chains_ = calls = 0
     for job, r in zip(jobs, res):
         if isinstance(r, dict):
-            chk.violation('chain:crash', {'cfg': CFG, 'kind': 'chain', 'kls': list(job[0]), 'path': [list(job[3])]}, 'chain subtree failed: %s' % str(r)[-800:]); continue
+            chk.violation('chain:crash', {'cfg': CFG, 'kind': 'chain', 'kls': list(job[0]), 'path': [list(v) for v in job[3]]}, 'chain subtree failed: %s' % str(r)[-800:]); continue
         n, c, k, viol = r
         nodes += n; chains_ += c; calls += k
         for key, rec, msg in viol:
@@ -732,19 +747,17 @@ def pbkdf2_gate(item):
     return belt.pbkdf2(pwd, 10000, cat_tok.SALT).hex() == want
 
 def run(tier):
-    chk = vf.Check(PROP, tier, deadline_s=600 if tier == 'quick' else 3000)
+    chk = vf.Check(PROP, tier, deadline_s=600 if tier == 'quick' else 2400)
     if common.lib(CFG).boolean('rngIsValid'):
         chk.violation('harness:rng', {'cfg': CFG, 'kind': 'none'}, 'the process-wide RNG is valid: signatures would not be reproducible')
     if tier == 'thorough':
         ok = vf.pmap(pbkdf2_gate, list(cat_tok.PBKDF2_10000.items()), case_timeout=600)
         if ok != [True] * len(ok):
             chk.violation('harness:pbkdf2-table', {'cfg': CFG, 'kind': 'none'}, 'the recorded reference PBKDF2 values disagree with ref/belt.py: %s' % ok)
-    corpus(chk, tier)
-    chains(chk, tier)
-    cert_tamper(chk, tier)
-    sm_search(chk, tier)
-    containers(chk, tier)
-    keylen_sweep(chk, tier)
+    for phase in (corpus, cert_tamper, containers, keylen_sweep, sm_search, chains):
+        if chk.expired():
+            chk.cap('deadline before ' + phase.__name__); continue
+        phase(chk, tier)
     chk.assumptions += [
         'reference ref/tok.py (CV certificate grammar and rules of btok.h, SM formats of STB 34.101.79 gated by the example of the standard, PKCS#8/PBES2 containers, CSR gated by a bee2evp request) '
         'on top of the vector-gated codec/bign/belt/bash references',
